@@ -198,6 +198,7 @@ class Ops:
         self.mul_mode = mul_mode
         self.bounds = {}  # z3 term id of a symbolic Int input -> (lo, hi): declared range (shared with the interpreter)
         self._ccache = {}
+        self.exact_specials = False  # opt-in: a unary op lifted over an ite keeps +-inf / nan branches as exact SpecialIte leaves
         self.fold_ct = False  # finite-domain mode: arithmetic on if-then-else trees with constant leaves stays such a tree
         self.side = []  # side axioms (draw ranges etc.)
         self._comm = set()
@@ -605,7 +606,7 @@ class Ops:
             return a.arg(0)
         if self._const_ite(a) or (_is_ite(a) and _ite_count(a) <= 6):
             ra, rb = self.unary(name, a.arg(1)), self.unary(name, a.arg(2))
-            if any(isinstance(r, SpecialIte) or (not is_sym(lower(r)) and is_special(lower(r))) for r in (ra, rb)):
+            if self.exact_specials and any(isinstance(r, SpecialIte) or (not is_sym(lower(r)) and is_special(lower(r))) for r in (ra, rb)):
                 # e.g. log(where(out_of_support, 0, p)): keep the -inf leaf exact instead of a distinguished finite constant
                 return _mk_special(self, a.arg(0), ra, rb)
             return z3.If(a.arg(0), zreal(ra), zreal(rb))
@@ -742,9 +743,10 @@ class DrawSite:
 
 
 class Interp:
-    def __init__(self, mul_mode="uf", while_bound=8, concrete_rng=False, fold_ct=False):
+    def __init__(self, mul_mode="uf", while_bound=8, concrete_rng=False, fold_ct=False, exact_specials=False):
         self.ops = Ops(mul_mode)
         self.ops.fold_ct = fold_ct
+        self.ops.exact_specials = exact_specials
         self.bounds: dict = self.ops.bounds  # z3 term id of a symbolic Int input -> (lo, hi) inclusive, from the obligation's declared ranges
         self.while_bound = while_bound
         self.draws: list[DrawSite] = []
